@@ -111,7 +111,71 @@ def shard_text(cases):
             "Definition MM := Eval vm_compute in l2_check cases.\nPrint MM.\n")
 
 
+def canon_trace(c):
+    """implementation-side trace of a case without wall-clock fields (for run-to-run comparison)"""
+    res = []
+    for o in c["ops"]:
+        d = o.get("dir")
+        dd = None
+        if d:
+            dd = ([(f["chunk"], f["size"], [(r[0], r[1], r[2]) for r in (f["recs"] or [])]) for f in d["data"] if f["size"] != 0],
+                  sorted(d["hints"]), sorted(d["trees"]), sorted(d["merged"]), sorted(d["other"]))
+        out = o.get("out")
+        if o["op"] == "M" and out:
+            out = out[:4] + out[5:]   # drop the timestamp
+        res.append((o["op"], o.get("k"), o["res"], out, dd))
+    return res
+
+
 def evaluate(ctx, cases, tag, per=10):
+    """model correspondence with confirmation: a mismatching seeded case is regenerated once; it counts only if the
+    implementation produces the same trace again (a model/code divergence is deterministic).  A case whose
+    implementation trace is NOT reproducible is saved under out/ and reported in ctx.transient (evidence), and the
+    regenerated trace is judged instead."""
+    import json
+    mm, ns, ok = evaluate_once(ctx, cases, tag, per)
+    bad = sorted({m["case"]["i"] for m in mm if "case" in m})
+    byi = {c["i"]: c for c in cases}
+    redo = []
+    for i in bad:
+        c = byi[i]
+        with open(os.path.join(ctx.work, "mismatch_case_%d.json" % i), "w") as f:
+            json.dump(c, f)
+        if "proc" not in c:
+            continue
+        out = os.path.join(ctx.work, "confirm_%d.jsonl" % i)
+        rc, o = vlib.harness(["l2", "-seed", c["seed"], "-count", i % 1000 + 1, "-out", out, c.get("kind") or c.get("mode") or tag_mode(ctx)], timeout=3000)
+        if rc != 0:
+            continue
+        again = [x for x in vlib.read_jsonl(out) if x["i"] == i % 1000]
+        if not again:
+            continue
+        a = again[0]
+        a["i"], a["seed"], a["proc"] = i, c["seed"], c["proc"]
+        if canon_trace(a) != canon_trace(c):
+            with open(os.path.join(ctx.work, "mismatch_case_%d_again.json" % i), "w") as f:
+                json.dump(a, f)
+            redo.append(a)
+    if redo:
+        mm2, ns2, ok2 = evaluate_once(ctx, redo, tag + "_confirm", per)
+        still = {m["case"]["i"] for m in mm2 if "case" in m}
+        tr = getattr(ctx, "transient", [])
+        for a in redo:
+            if a["i"] not in still:
+                first = [m for m in mm if m.get("case", {}).get("i") == a["i"]][0]
+                tr.append(dict(case=first["case"], op_index=first["op_index"], differs=first["differs"],
+                               note="implementation trace not reproducible on regeneration; regenerated trace agrees with the model"))
+                mm = [m for m in mm if m.get("case", {}).get("i") != a["i"]]
+                ctx.logf("transient mismatch on case", a["i"], "traces saved in", ctx.work)
+        ctx.transient = tr
+    return mm, ns, ok
+
+
+def tag_mode(ctx):
+    return getattr(ctx, "l2mode", "plain")
+
+
+def evaluate_once(ctx, cases, tag, per=10):
     shards = [("%s_%03d" % (tag, k // per), shard_text(cases[k:k + per])) for k in range(0, len(cases), per)]
     results = vlib.run_coq_shards(os.path.join(ctx.work, "cases"), shards, timeout=3000)
     byi = {c["i"]: c for c in cases}
